@@ -136,11 +136,35 @@ inductive OpKind where
   | query | mutation | subscription
   deriving DecidableEq, Repr
 
+/-- a selection at the root of the operation, as `collect_fields` sees it -/
+inductive RSel where
+  /-- a field with its response key; `none` = dropped by `@skip` / `@include` -/
+  | field (key : Option String)
+  /-- a fragment spread or inline fragment whose type condition applies (its selections) -/
+  | spread (sels : List RSel)
+
+instance : Inhabited RSel := ⟨.field none⟩
+
+mutual
+/-- `collect_fields`: response keys in first-occurrence order; same key = same entry (merged) -/
+def collectSel : RSel → List String → List String
+  | .field none, acc => acc
+  | .field (some k), acc => if k ∈ acc then acc else acc ++ [k]
+  | .spread ss, acc => collectSels ss acc
+def collectSels : List RSel → List String → List String
+  | [], acc => acc
+  | s :: ss, acc => collectSels ss (collectSel s acc)
+end
+
 structure SubRequest where
+  /-- `get_operation_with_type` succeeds -/
+  opselOk : Bool
+  /-- `coerce_variable_values` succeeds -/
+  varsOk : Bool
   operation : OpKind
-  /-- number of response keys `collect_fields` finds at the root -/
-  rootFields : Nat
-  /-- `executor.field_definition(root_type, name)` is not None -/
+  /-- the root selection set as written (fields, fragment spreads, inline fragments) -/
+  root : List RSel
+  /-- `executor.field_definition(root_type, name)` of the collected field is not None -/
   fieldDefined : Bool
   /-- `field_def.subscription_resolver` is not None -/
   hasSubResolver : Bool
@@ -155,10 +179,12 @@ inductive SubOutcome where
 
 /-- `subscribe` + `create_source_event_stream`, then the consumer drains the stream -/
 def subscribe (r : SubRequest) : SubOutcome :=
-  if r.operation ≠ .subscription then .refused "RuntimeError" false 0       -- "`subscribe` does not support %s operation"
+  if !r.opselOk then .refused "InvalidOperationError" false 0               -- get_operation_with_type
+  else if !r.varsOk then .refused "VariablesCoercionError" false 0          -- coerce_variable_values
+  else if r.operation ≠ .subscription then .refused "RuntimeError" false 0  -- "`subscribe` does not support %s operation"
   else if !r.streamRuntime then .refused "RuntimeError" false 0             -- "Runtime of type … doesn't support subscriptions."
-  -- create_source_event_stream
-  else if r.rootFields ≠ 1 then .refused "ExecutionError" false 0           -- "Subscription operation must specify only one field."
+  -- create_source_event_stream: fields = executor.collect_fields(root_type, selections)
+  else if (collectSels r.root []).length ≠ 1 then .refused "ExecutionError" false 0   -- "… must specify only one field."
   else if !r.fieldDefined then .refused "RuntimeError" false 0              -- "No field definition found …"
   else if !r.hasSubResolver then .refused "RuntimeError" false 0            -- "… should provide a subscription resolver."
   else
